@@ -162,6 +162,25 @@ Definition spec_pull_ok (i : bool * list source * list str) (r : val) : bool :=
       end
   end.
 
+(* the license filter: a package is accepted iff some alternative of its LICENSE consists only of
+   licenses that the stream "ACCEPT_LICENSE tokens, then the tokens of the package.license
+   entries matching THIS package" leaves accepted — independently of any earlier query *)
+Definition accepted_by_stream (groups : list (str * list str)) (stream : list str)
+           (alts : list (list str)) : bool :=
+  existsb (fun alt => forallb (fun x => last_writer (lic_adds alt groups) (lic_dels alt groups)
+                                                    (rev stream) x false) alt) alts.
+Definition spec_licfilter_answer master (entries : list (list str)) groups (q : lic_query) : val :=
+  let stream := master ++ concat (map snd (filter fst (combine (fst q) entries))) in
+  match first_bad bad_license stream with
+  | Some e => match snd q with [] => VB false | _ => enc_err e end
+  | None => VB (accepted_by_stream groups stream (snd q))
+  end.
+Definition spec_licfilter_ok
+           (i : list str * list (list str) * list (str * list str) * list lic_query) (r : val) : bool :=
+  let '(master, entries, groups, qs) := i in
+  if is_nil master && is_nil entries then val_eqb r (VL (map (fun _ => VB true) qs))   (* no filter *)
+  else val_eqb r (VL (map (spec_licfilter_answer master entries groups) qs)).
+
 Definition spec_case_ok (c : case_in) (r : val) : bool :=
   match c with
   | CExpand i => spec_expand_ok i r
@@ -177,4 +196,5 @@ Definition spec_case_ok (c : case_in) (r : val) : bool :=
   | CLicense i => spec_license_ok i r
   | CPull i => spec_pull_ok i r
   | CNiPull _ => true
+  | CLicFilter i => spec_licfilter_ok i r
   end.
